@@ -1,7 +1,7 @@
 (** Type-checked expressions and their evaluation (src/operator/expr.rs,
     src/funcs.rs). *)
 From Coq Require Import List ZArith NArith Bool Floats.SpecFloat.
-From AG Require Import Str F64 Value Json DatePaths.
+From AG Require Import Str F64 Value Json DatePaths DurFmt.
 From AG Require Generated.
 Import ListNotations.
 Open Scope string_scope.
@@ -108,7 +108,8 @@ Definition to_display (v : value) : res str :=
       | None => Unm
       end
   | VDate ns => match date_form "Display" with Some f => Ok (f ns) | None => Unm end   (* chrono's Debug (DateFmt.v) *)
-  | _ => Unm   (* float shortest form, Debug of durations *)
+  | VDur ns => Ok (fmt_dur_debug ns)   (* the derived Debug of chrono's TimeDelta (DurFmt.v) *)
+  | _ => Unm   (* float shortest form *)
   end.
 
 Definition is_ascii_str (s : str) : bool := forallb (fun c => (c <? 128)%N) s.
